@@ -219,7 +219,10 @@ type c15Case struct {
 	// kernel then refuses the filter
 	OuterDeniesSeccomp bool `json:"outer_denies_seccomp,omitempty"`
 	// files too large to be kept in a replay artefact are described by how they are generated
-	GenKind  string `json:"generated_kind,omitempty"` // large-file | long-group | oversize
+	// the sandbox command is nested Nest times with the same policy (each level installs its filter and starts the next):
+	// with a near-maximum policy the kernel's budget of 32768 instructions per thread is exceeded at some level (ENOMEM)
+	Nest     int    `json:"nest,omitempty"`
+	GenKind  string `json:"generated_kind,omitempty"` // large-file | long-group | oversize | near-max
 	GenParam int    `json:"generated_param,omitempty"`
 }
 
@@ -231,6 +234,11 @@ func c15Generate(kind string, param int) string {
 		b.WriteString("seccomp:\n  default_action: allow\n  syscalls:\n  - action: errno\n    names_with_args:\n")
 		for i := 0; i < 1100; i++ {
 			fmt.Fprintf(&b, "    - name: getppid\n      arguments:\n      - argument: 0\n        operation: Equal\n        value: %d\n", 1000+i)
+		}
+	case "near-max":
+		b.WriteString("seccomp:\n  default_action: allow\n  syscalls:\n  - action: errno\n    names_with_args:\n")
+		for i := 0; i < param; i++ {
+			fmt.Fprintf(&b, "    - name: getsid\n      arguments:\n      - argument: 0\n        operation: Equal\n        value: %d\n", 1<<40+i)
 		}
 	case "long-group":
 		b.WriteString("seccomp:\n  default_action: allow\n  syscalls:\n  - action: errno\n    names_with_args:\n")
@@ -358,6 +366,8 @@ func checkC15(tier, replay string) int {
 		cases = append(cases, c15Case{Label: "oversize/kernel-EINVAL", File: c15Generate("oversize", 0), FileKind: "content", GenKind: "oversize"})
 		// a first group whose conditional entries compile to more than 255 instructions (long jumps inside it), then a second group
 		cases = append(cases, c15Case{Label: "long-conditional-group-then-group/whole", File: c15Generate("long-group", 70), FileKind: "content", GenKind: "long-group", GenParam: 70})
+		// ten nested sandbox commands with a 4.0k-instruction policy: one of them is refused by the kernel (ENOMEM)
+		cases = append(cases, c15Case{Label: "nested-10x-near-maximum/kernel-ENOMEM", File: c15Generate("near-max", 1010), FileKind: "content", GenKind: "near-max", GenParam: 1010, Nest: 10})
 		// large files: a comment block pushes the last group to start exactly at byte offset L (and one byte before / after it):
 		// a reader that stops at a size limit on a line boundary would still see a well-formed, but different, policy
 		for _, L := range []int{4096, 8192, 16384, 32768, 65536, 131072, 1 << 20} {
@@ -415,6 +425,8 @@ func checkC15(tier, replay string) int {
 				mustRefuse = "kernel refuses (program too long)"
 			} else if c.Unpriv && len(c.ExtraArgs) > 0 {
 				mustRefuse = "kernel refuses (no privilege, no no_new_privs)"
+			} else if c.Nest >= 9 && len(prog) > 3700 {
+				mustRefuse = "kernel refuses (the filters of the nested commands exceed 32768 instructions)"
 			} else if c.OuterDeniesSeccomp {
 				mustRefuse = "kernel refuses (seccomp(2) answers EPERM under the outer sandbox)"
 			} else if d := refsem.Decide(a, p, cbpf.Event{Nr: mustNum(a, "execve"), Arch: a.ID}); d != refsem.RetAllow && d != refsem.RetLog {
@@ -451,6 +463,9 @@ func checkC15(tier, replay string) int {
 		}
 		argv := append([]string{sandbox, "-policy", pol}, c.ExtraArgs...)
 		argv = append(argv, target...)
+		for k := 1; k < c.Nest; k++ {
+			argv = append([]string{sandbox, "-policy", pol}, argv...)
+		}
 		if c.OuterDeniesSeccomp {
 			outer := filepath.Join(dir, "outer.yml")
 			os.WriteFile(outer, []byte("seccomp:\n  default_action: allow\n  syscalls:\n  - action: errno\n    names:\n    - seccomp\n"), 0o644)
@@ -540,7 +555,7 @@ func checkC15(tier, replay string) int {
 	ctx.Cov["runs_in_which_the_target_started"] = ranTarget
 	ctx.Cov["runs_that_must_be_refused"] = refused
 	ctx.Cov["probe_events_observed_by_the_target"] = probes
-	ctx.Cov["rule"] = "the built cmd/sandbox binary is run with a probe target (a separate program that first appends a marker line, then issues probe syscalls for every partition cell of the policy) on: 10 base policy files (one spelling all eight operations and the actions in non-canonical letter case, one whose first group ends with a conditional entry for a syscall the second group names unconditionally) (incl. two under which execve is not allowed: no target can be started) whole (root / uid 65534 / with -no-new-privs=false / non-existent target / nested inside an outer sandbox whose policy answers errno to seccomp(2), so that the kernel refuses the filter), every line prefix and every byte prefix inside the first and last rule (thorough: every byte prefix), 13 defect kinds per base plus an unknown name at every position where a syscall name stands, JSON renderings with operands that need all 64 bits (unknown action/default/syscall/operation, wrong key, no syscalls, non-YAML, tab indentation, empty, argument 6 / -1, non-numeric value, duplicate name), a policy compiling to > 4096 instructions, a policy whose first group needs long jumps (70 conditional entries) followed by a second group, files of 4 KiB to 1 MiB in which a comment block pushes the last group to byte offset L-1, L, L+1 for L in {4096, ..., 65536, 131072, 1 MiB}, a missing file and a directory; the same bytes are loaded by the harness through ucfg: if that fails, the policy is invalid or the kernel must refuse, the run must exit non-zero with no marker; otherwise the marker exists and the target's observations equal the reference decisions of the policy the file denotes"
+	ctx.Cov["rule"] = "the built cmd/sandbox binary is run with a probe target (a separate program that first appends a marker line, then issues probe syscalls for every partition cell of the policy) on: 10 base policy files (one spelling all eight operations and the actions in non-canonical letter case, one whose first group ends with a conditional entry for a syscall the second group names unconditionally) (incl. two under which execve is not allowed: no target can be started) whole (root / uid 65534 / with -no-new-privs=false / non-existent target / nested inside an outer sandbox whose policy answers errno to seccomp(2), so that the kernel refuses the filter), every line prefix and every byte prefix inside the first and last rule (thorough: every byte prefix), 13 defect kinds per base plus an unknown name at every position where a syscall name stands, JSON renderings with operands that need all 64 bits (unknown action/default/syscall/operation, wrong key, no syscalls, non-YAML, tab indentation, empty, argument 6 / -1, non-numeric value, duplicate name), a policy compiling to > 4096 instructions, ten nested sandbox commands with a 4.0k-instruction policy (the kernel refuses one of them with ENOMEM), a policy whose first group needs long jumps (70 conditional entries) followed by a second group, files of 4 KiB to 1 MiB in which a comment block pushes the last group to byte offset L-1, L, L+1 for L in {4096, ..., 65536, 131072, 1 MiB}, a missing file and a directory; the same bytes are loaded by the harness through ucfg: if that fails, the policy is invalid or the kernel must refuse, the run must exit non-zero with no marker; otherwise the marker exists and the target's observations equal the reference decisions of the policy the file denotes"
 	ctx.Assumptions = []string{"a truncated file that still parses is a different valid policy and is judged as such", "probe syscalls ignore arguments", "fault points before exec are realised through inputs (file defects, kernel refusals), not by interrupting the sandbox process"}
 	if replay != "" {
 		return finishReplay(ctx)
